@@ -112,7 +112,7 @@ func (ft *FT) buildQueryOpt(o *Obl, axs []axTerm, slice bool) string {
 					inc = true
 				}
 			}
-			if inc && (a.ax.Lemma || strings.HasPrefix(a.ax.Name, "def_")) && !ft.visible(a.ax) {
+			if inc && (a.ax.Lemma || strings.HasPrefix(a.ax.Name, "def_")) && !ft.visibleFor(o, a.ax) {
 				inc = false
 			}
 			if inc {
@@ -130,7 +130,9 @@ func (ft *FT) buildQueryOpt(o *Obl, axs []axTerm, slice bool) string {
 	}
 	for i, a := range axs {
 		if included[i] {
+			ft.mu.Lock()
 			ft.axUsed[a.ax.Name] = true
+			ft.mu.Unlock()
 			mid.WriteString("; axiom " + a.ax.Name + "\n(assert " + a.term + ")\n")
 		}
 	}
@@ -177,6 +179,9 @@ var solvers = []solverSpec{
 }
 
 // Solve races the portfolio on one query.
+// coverSolvers: vacuity covers only look for a quick `unsat` (a contradiction among the assumptions); three configurations, 2 s.
+var coverSolvers = []solverSpec{solvers[0], solvers[5]}
+
 func Solve(query string, dir string, name string, timeoutS int, wantModel bool) SolveResult {
 	return solveWith(solvers, query, dir, name, timeoutS, wantModel)
 }
@@ -264,11 +269,33 @@ func hashStr(s string) uint32 {
 }
 
 // visible: lemmas and definitional axioms are used only by proofs in the same contract file, or on request (uses).
+func (ft *FT) visibleFor(o *Obl, ax *Axiom) bool {
+	if o != nil && o.File != "" && ft.lemma == nil && ft.c != nil && o.File != ft.c.File {
+		// clause inherited from another contract file (loop invariant of the generic contract in a
+		// specialised proof): prove it with the lemmas of the file it was written in
+		if ax.File == o.File {
+			return true
+		}
+		if ft.c.BaseKey != "" {
+			if bc := ft.g.db.Contracts[ft.c.BaseKey]; bc != nil {
+				for _, u := range bc.Uses {
+					if u == ax.Name || "def_"+u == ax.Name {
+						return true
+					}
+				}
+			}
+		}
+		return false
+	}
+	return ft.visible(ax)
+}
+
 func (ft *FT) visible(ax *Axiom) bool {
 	file := ""
 	var uses []string
 	if ft.lemma != nil {
 		file = ft.lemma.File
+		uses = ft.g.db.FileUses[file]
 	} else if ft.c != nil {
 		file = ft.c.File
 		uses = ft.c.Uses
@@ -297,6 +324,8 @@ func isCtl(sym string) bool {
 }
 
 func (ft *FT) factInfos() []factInfo {
+	ft.mu.Lock()
+	defer ft.mu.Unlock()
 	for len(ft.finfo) < len(ft.facts) {
 		f := ft.facts[len(ft.finfo)]
 		var fi factInfo
